@@ -48,7 +48,11 @@ def run(ctx):
     ctx.rule('R17.7', 'the number of workers of every permitted allocation depends on all documented limits (max worker count minus active workers, backlog minus queued allocations, max workers per allocation) and is never zero')
     csp = prog.body(PROC + 'compute_submission_permit')
     INFO = AA + 'QueueInfo::'
-    pushes = [bi for bi in csp.call_blocks('alloc::vec::Vec::push') if csp.locals_named('allocations') and set(csp.locals_named('allocations')) & csp.derived_from(op_local(csp.term[bi]['args'][0]))]
+    permit_vec = set()
+    for o_, b_, bi_, s_ in construct_sites(prog, PROC + 'SubmissionPermit'):
+        if b_.path == csp.path:
+            permit_vec |= {x for x in csp.derived_from(op_local(s_['rv'][2][0])) if csp.locals[x][0].startswith('alloc::vec::Vec<u64')}
+    pushes = [bi for bi in csp.call_blocks('alloc::vec::Vec::push') if permit_vec & csp.derived_from(op_local(csp.term[bi]['args'][0]))]
     ctx.require(len(pushes) == 1, 'R17.7: push into allocations')
     pv = op_local(csp.term[pushes[0]]['args'][1])
     srcs = csp.derived_from(pv)
